@@ -36,6 +36,8 @@ pub struct WrapShared {
     pub unwrapped: Cell<bool>,
     /// composite sources: what the socket child whose callback just ran returns
     pub child_ret: Cell<Option<PostAction>>,
+    /// composite sources: arm the parked timer child (index, ns) at the next reregister()
+    pub arm_child: Cell<Option<(usize, u64)>>,
     /// things (Async adapters) this source owns and drops from inside its next unregister (0) /
     /// reregister (1) / register (2) call: (when, adapter id, the adapter)
     pub victims: RefCell<Vec<(u8, Id, Box<dyn std::any::Any>)>>,
